@@ -108,8 +108,15 @@ func verifC39_method() {
 // verifC39_basicauth: with credentials configured, only exactly "user:password" passes.
 func verifC39_basicauth() {
 	rpcCfg = &types.RPC{JrpcUserName: "u", JrpcUserPasswd: "p"}
-	if verifChoose("password-with-colon", 2) == 1 {
+	// configuration shapes: full, password containing ':', and the two half-configured forms
+	// (only a user name, only a password), which still count as "authentication configured"
+	switch verifChoose("auth-config", 4) {
+	case 1:
 		rpcCfg.JrpcUserPasswd = "p:x"
+	case 2:
+		rpcCfg.JrpcUserPasswd = ""
+	case 3:
+		rpcCfg.JrpcUserName = ""
 	}
 	n := verifChoose("cred.len", verifParam("maxcred", 5)+1)
 	var cred []byte
